@@ -108,6 +108,7 @@ SPEC = {
         'mdpRollout_selects_jointly', 'pomdpRollout_selects_jointly', 'mdpRollout_head', 'pomdpRollout_head', 'copied_engine_not_product',
         # the same for every table accepted by isProbability: one box, each factor within 1e-6 of the table entry
         'unitSide_iff', 'unitSide_len', 'unitSide_wf', 'chainGo_box_valid', 'chain_selects_jointly_valid', 'mdpRollout_selects_jointly_valid',
+        'coopRollout_selects_jointly', 'coopRollout_head',
         # round 4: Dirichlet / Beta with the underflow fallback of fixes/C08-8: valid for EVERY outcome of the gamma draws; ordinary draws untouched
         # round 4: bandit models (reward samples): arm index in range for every joint action and every flattened id; reward inside the arm's support
         'toFactors_valid', 'fb_arm_in_range', 'flat_arm_in_range', 'armSample_in_range', 'fbSampleR_length', 'fbSampleR_getD',
